@@ -320,7 +320,11 @@ Definition detach_any (k : key) (s : st) : res st := node_detach k s.
 Definition file_initialize_row (l : str) (req : fstate) (s : st) : res st :=
   let old := find_file l s in
   let state := match req, old with
-               | FUndeclared, Some r | FPlanned, Some r =>
+               | FUndeclared, Some r =>
+                 (* a former output keeps its output state; a former volatile output that is merely
+                    supplied as an input stays VOLATILE (so that cleanup still removes it) *)
+                 match fstt r with FBuilt => FBuilt | FOutdated => FOutdated | FVolatile => FVolatile | _ => req end
+               | FPlanned, Some r =>
                  match fstt r with FBuilt => FBuilt | FOutdated => FOutdated | _ => req end
                | _, _ => req
                end in
